@@ -3,6 +3,7 @@ package props
 import (
 	"bytes"
 	"fmt"
+	"io"
 	"os"
 	"path/filepath"
 	"runtime"
@@ -358,6 +359,86 @@ func c10GenWF(t *rapid.T, maxK int) c10WF {
 	return c
 }
 
+// lists made only of passphrase recipients while the CSPRNG fails on some of its reads: never accepted
+type c10RandFaults struct {
+	N     int   `json:"n"`     // number of passphrase recipients
+	Fails []int `json:"fails"` // reads of the CSPRNG that fail
+}
+
+func c10CheckRandFaults(c c10RandFaults, st *stats.Run) error {
+	var recs []age.Recipient
+	for i := 0; i < c.N; i++ {
+		r, _ := age.NewScryptRecipient(fmt.Sprint("passphrase ", i))
+		r.SetWorkFactor(1)
+		recs = append(recs, r)
+	}
+	tape := &hx.Tape{Seed: 61, FailSet: map[int]bool{}}
+	for _, k := range c.Fails {
+		tape.FailSet[k] = true
+	}
+	var dst hx.RecWriter
+	var w io.WriteCloser
+	var err error
+	hx.WithTape(tape, func() { w, err = age.Encrypt(&dst, recs...) })
+	st.Case(len(c.Fails) > 0, stats.HashJSON(c), "A:rand-faults", fmt.Sprintf("A:rand-faults-n=%d", len(c.Fails)))
+	if c.N >= 2 && (err == nil || w != nil) {
+		return pbt.Failf("C10/mixed-accepted", "Encrypt accepted %d passphrase recipients while the CSPRNG failed on its reads %v; %d bytes written", c.N, c.Fails, dst.Buf.Len())
+	}
+	if w != nil {
+		w.Close()
+	}
+	return nil
+}
+
+// a passphrase file whose work-factor field is the real one plus a multiple of 2^32 or 2^64: refused by the
+// commands as built for this platform and for a 32-bit one
+type c10CLIWF struct {
+	WF    int    `json:"wf"`
+	Field string `json:"field"` // the text of the work-factor argument
+	Arch  string `json:"arch"`  // native | 386
+}
+
+func c10CheckCLIWF(c c10CLIWF, st *stats.Run) error {
+	bin := os.Getenv("VERIF_BIN")
+	if c.Arch == "386" {
+		bin = os.Getenv("VERIF_BIN386")
+	}
+	if bin == "" {
+		return nil
+	}
+	dir, err := os.MkdirTemp(".", "c10wf-")
+	if err != nil {
+		return pbt.Failf("C10/harness", "%v", err)
+	}
+	dir, _ = filepath.Abs(dir)
+	defer os.RemoveAll(dir)
+	const pass = "work factor passphrase"
+	fk := hx.PRG(71, 16)
+	sc := refage.WrapScrypt(fk, hx.PRG(72, 16), c.WF, []byte(pass))
+	canonical := sc.Args[1] == c.Field
+	sc.Args[1] = c.Field
+	plain := []byte("passphrase plaintext")
+	f := refage.Build(fk, hx.PRG(73, 16), []refage.Stanza{sc}, refage.CanonicalChunks(plain))
+	os.WriteFile(filepath.Join(dir, "in.age"), f.Bytes(), 0o644)
+	st.Case(!canonical, stats.HashJSON(c), "C:cli-wf", "C:cli-wf-arch="+c.Arch, fmt.Sprintf("C:cli-wf-canonical=%v", canonical))
+	res, tty := c15RunPty(dir, []string{pass}, filepath.Join(bin, "age"), "-d", "-o", "out.dat", "in.age")
+	if res.killed || res.code == -3 || (c.Arch == "386" && strings.Contains(res.stderr, "exec format")) {
+		st.Label("inconclusive-pty")
+		return nil
+	}
+	got, rerr := os.ReadFile(filepath.Join(dir, "out.dat"))
+	if canonical {
+		if res.code != 0 || !bytes.Equal(got, plain) {
+			return pbt.Failf("C10/valid-wf-rejected", "age -d (%s build) refuses a passphrase file with work factor %s: %s %q", c.Arch, c.Field, res.stderr, tty)
+		}
+		return nil
+	}
+	if res.code == 0 || rerr == nil {
+		return pbt.Failf("C10/bad-wf-accepted", "age -d (%s build) accepted a passphrase stanza whose work-factor field is %q (the key was derived with 2^%d): exit %d, output written: %v", c.Arch, c.Field, c.WF, res.code, rerr == nil)
+	}
+	return nil
+}
+
 // through the age command and a terminal: -p together with any other way of naming a recipient is refused
 type c10CLI struct {
 	With  []string `json:"with"` // r | R | i | j
@@ -498,6 +579,44 @@ func TestC10(t *testing.T) {
 		s.St.Exhaust("a passphrase recipient with 1-3 recipients that contribute no stanza (no labels, empty labels, a label) before and after it", int64(n))
 	}, enc)
 
+	pbt.Each(s, "encrypt-mixed", func(yield func(c10RandFaults)) {
+		n := 0
+		for _, nrec := range []int{2, 3} {
+			// every set of up to three failing reads among the first eight
+			for a := -1; a < 8; a++ {
+				for b := a; b < 8; b++ {
+					for cc := b; cc < 8; cc++ {
+						var fails []int
+						for _, k := range []int{a, b, cc} {
+							if k >= 0 && (len(fails) == 0 || fails[len(fails)-1] != k) {
+								fails = append(fails, k)
+							}
+						}
+						if a >= 0 && (a == b || b == cc) {
+							continue
+						}
+						if s.Mine(n) {
+							yield(c10RandFaults{N: nrec, Fails: fails})
+						}
+						n++
+					}
+				}
+			}
+		}
+		s.St.Exhaust("two and three passphrase recipients while the CSPRNG fails on every set of up to three of its first eight reads", int64(n))
+	}, func(c c10RandFaults) error { return c10CheckRandFaults(c, s.St) })
+	pbt.Each(s, "work-factor-cli", func(yield func(c10CLIWF)) {
+		n := 0
+		for _, arch := range []string{"native", "386"} {
+			for _, field := range []string{"10", "4294967306", "8589934602", "18446744073709551626", "010", "+10", "4294967296", "-4294967286"} {
+				if s.Mine(n) {
+					yield(c10CLIWF{WF: 10, Field: field, Arch: arch})
+				}
+				n++
+			}
+		}
+		s.St.Exhaust("age -d through a terminal (native and 32-bit builds) on passphrase files whose work-factor field is 10 plus multiples of 2^32 and 2^64, with leading zero or sign", int64(n))
+	}, func(c c10CLIWF) error { return c10CheckCLIWF(c, s.St) })
 	pbt.Each(s, "encrypt-mixed-cli", func(yield func(c10CLI)) {
 		n := 0
 		for _, w := range [][]string{{}, {"r"}, {"R"}, {"i"}, {"j"}, {"j", "j"}, {"r", "j"}, {"i", "j"}, {"R", "r"}} {
